@@ -509,8 +509,8 @@ def contenders_stay_failed(tree, rep, rule="C07.R9"):
                            "(refused, DNS error) becomes a SUCCESS of the race with a result that is no connection - the dead hint wins, every "
                            "viable contender is cancelled and connect() returns %s" % (fname, ast.unparse(bad[0])[:90] if bad else "", "None / an exception class"))
     sc = tree.func(TR, "Common", "_start_connector")
-    rep.check(rule, "Common._start_connector builds its contender from ep.connect(..) and a startNegotiation callback", n >= 1 and
-              any(isinstance(c, ast.Attribute) and c.attr == "startNegotiation" for c in ast.walk(sc)), site(sc, TR), key="%s:_start_connector:shape" % rule)
+    rep.check(rule, "Common._start_connector builds its contender as a callback chain on ep.connect(..) (%d stage(s) examined)" % n, n >= 1 and
+              any(isinstance(c, ast.Attribute) and c.attr == "connect" for c in ast.walk(sc)), site(sc, TR), key="%s:_start_connector:shape" % rule)
 
 
 def run(tree, rep, tier):
